@@ -1482,9 +1482,11 @@ Example path_ok_examples :
   path_ok (bs "/a/b/..") = false /\ path_ok (bs "/a/. ") = false.
 Proof. vm_compute. repeat split; reflexivity. Qed.
 
-(* known finding: CanonicalPath is not idempotent on a blank-edged dot segment; the rtsp session checks the right
-   on CanonicalPath(url) = "/a/. " (segments a, .) and the registry serves CanonicalPath of that = "/a":
-   eve, whose pull right /a/+ does not cover /a, is given /a's description.  Outside the class ev_ok. *)
+(* former known finding, fixed in /repo by "fix: CanonicalPath is idempotent": one pass of CanonicalPath is not
+   idempotent on a blank-edged dot segment (CanonProofs.canonical_once_not_idem); the rtsp session checked the right
+   on the one-pass result "/a/. " (segments a, .) and the registry served CanonicalPath of that = "/a": eve, whose
+   pull right /a/+ does not cover /a, was given /a's description.  With the repaired CanonicalPath the session
+   checks the right on "/a", the path served, and eve is refused (403); the strict oracle holds on the run. *)
 Definition w2 : list bytes := [bs "/a"; bs "/a/b"].
 Definition s2 : state := state0 [mk "eve" "pe" false "" "/a/+"] [bs "/a"].
 Definition mk_eve : user := mk "eve" "pe" false "" "/a/+".
@@ -1492,10 +1494,10 @@ Definition w2_a : bytes := bs "/a".
 Definition unsettled_evs : list event :=
   [ERtspOpen; ERtsp 0 M_DESCRIBE (bs "/a/. /x/..") (CDigest (bs "eve") (bs "pe") 0 0)].
 
-Theorem unsettled_path_refuted :
-  ok_run_strict w2 s2 unsettled_evs (run w2 s2 unsettled_evs) = false /\
+Theorem unsettled_path_fixed :
+  ok_run_strict w2 s2 unsettled_evs (run w2 s2 unsettled_evs) = true /\
   ok_run w2 s2 unsettled_evs (run w2 s2 unsettled_evs) = true /\
-  map o_code (run w2 s2 unsettled_evs) = [0; 200] /\
+  map o_code (run w2 s2 unsettled_evs) = [0; 403] /\
   spec_allows (users s2) (u_name (mk_eve)) APull (w2_a) = false.
 Proof. vm_compute. repeat split; reflexivity. Qed.
 
